@@ -1,17 +1,21 @@
 (* RunC11.v -- runner for C11.  Case:
      (case <doc> (ops <op>...) (orc (tag xIN xOUT)...))
    op ::= (new) | (add <obj>) | (set (i g) <obj>) | (del (i g)) | (rmannot (i g)) | (prune)
+        | (delpages n...) | (renumber) | (compress) | (decompress) | (ccs (i g) xC) | (cpc (i g) xC) | (apc (i g) xC)
+        | (atpc (i g) (op xOP operand...)...) | (gocr (i g)) | (addx (i g) xNAME (i g)) | (addgs (i g) xNAME (i g))
+        | (content (i g))
    Result: (trace (<out> <doc-or-=>)...) -- one entry per operation: what the call returned and the
    canonical dump of the document after it ("=" when the dump equals the previous one).
-   out ::= unit | (id (i g)) | (obj none) | (obj <obj>) | (ids (i g)...) | ok | err | panic | fuel
+   out ::= unit | (id (i g)) | (obj none) | (obj <obj>) | (ids (i g)...) | ok | err | panic | fuel | hang
+         | (okobj <obj>) | (bytes none) | (bytes xHEX)
    The oracle table is the one of RunC09.v (tags f / l0 / l1 / z). *)
 From LV Require Import Base.Bytes Base.Sx Model.Obj Model.DocQ Model.PageTree Model.Traverse Model.Edit
-  Run.RunC09.
+  Model.Writer Run.RunC09 Run.RunC14.
 
 Definition oracles_of (tbl : orc) : oracles :=
   {| Edit.o_inflate := RunC09.o_inflate tbl; Edit.o_lzw := RunC09.o_lzw tbl; Edit.o_deflate := RunC09.o_deflate tbl |}.
 
-Definition op_of_sx (x : sx) : option op :=
+Definition eop_of_sx (x : sx) : option op :=
   match x with
   | SL (SA tag :: args) =>
     if bytes_eqb tag (bs "new") then Some NewObjectId
@@ -27,6 +31,46 @@ Definition op_of_sx (x : sx) : option op :=
     else if bytes_eqb tag (bs "rmannot") then
       match args with [i] => option_map RemoveAnnot (oid_of_sx i) | _ => None end
     else if bytes_eqb tag (bs "prune") then Some PruneObjects
+    else if bytes_eqb tag (bs "delpages") then option_map DeletePages (omap as_N args)
+    else if bytes_eqb tag (bs "renumber") then Some RenumberObjects
+    else if bytes_eqb tag (bs "compress") then Some Compress
+    else if bytes_eqb tag (bs "decompress") then Some Decompress
+    else if bytes_eqb tag (bs "ccs") then
+      match args with
+      | [i; c] => match oid_of_sx i, as_bytes c with Some i, Some c => Some (ChangeContentStream i c) | _, _ => None end
+      | _ => None
+      end
+    else if bytes_eqb tag (bs "cpc") then
+      match args with
+      | [i; c] => match oid_of_sx i, as_bytes c with Some i, Some c => Some (ChangePageContent i c) | _, _ => None end
+      | _ => None
+      end
+    else if bytes_eqb tag (bs "apc") then
+      match args with
+      | [i; c] => match oid_of_sx i, as_bytes c with Some i, Some c => Some (AddPageContents i c) | _, _ => None end
+      | _ => None
+      end
+    else if bytes_eqb tag (bs "atpc") then
+      match args with
+      | i :: os => match oid_of_sx i, omap RunC14.op_of_sx os with Some i, Some os => Some (AddToPageContent i os) | _, _ => None end
+      | _ => None
+      end
+    else if bytes_eqb tag (bs "gocr") then
+      match args with [i] => option_map GetOrCreateResources (oid_of_sx i) | _ => None end
+    else if bytes_eqb tag (bs "addx") then
+      match args with
+      | [i; n; x] => match oid_of_sx i, as_bytes n, oid_of_sx x with
+                     | Some i, Some n, Some x => Some (AddXObject i n x) | _, _, _ => None end
+      | _ => None
+      end
+    else if bytes_eqb tag (bs "addgs") then
+      match args with
+      | [i; n; x] => match oid_of_sx i, as_bytes n, oid_of_sx x with
+                     | Some i, Some n, Some x => Some (AddGraphicsState i n x) | _, _, _ => None end
+      | _ => None
+      end
+    else if bytes_eqb tag (bs "content") then
+      match args with [i] => option_map GetPageContent (oid_of_sx i) | _ => None end
     else None
   | _ => None
   end.
@@ -42,6 +86,10 @@ Definition out_to_sx (o : out) : sx :=
   | OErr => sx_id "err"
   | OPanic => sx_id "panic"
   | OFuel => sx_id "fuel"
+  | OHang => sx_id "hang"
+  | OOkObj x => SL [sx_id "okobj"; obj_to_sx x]
+  | OBytes None => SL [sx_id "bytes"; sx_id "none"]
+  | OBytes (Some b) => SL [sx_id "bytes"; sx_bytes b]
   end.
 
 Fixpoint trace (O : oracles) (d : doc) (prev : bytes) (ops : list op) : list sx :=
@@ -58,7 +106,7 @@ Definition run (x : sx) : sx :=
   match x with
   | SL (_ :: dx :: SL (_ :: opsx) :: rest) =>
     let tbl := match rest with ox :: _ => match orc_of_sx ox with Some t => t | None => [] end | [] => [] end in
-    match doc_of_sx dx, omap op_of_sx opsx with
+    match doc_of_sx dx, omap eop_of_sx opsx with
     | Some d, Some ops => SL (sx_id "trace" :: trace (oracles_of tbl) d (sx_print (doc_to_sx d)) ops)
     | _, _ => sx_id "badcase"
     end
